@@ -159,6 +159,10 @@ theorem pad_eq'' (n : Nat) :
     apply decide_eq_decide.mpr; constructor <;> (intro h h2; exact h h2.symm)
   rw [hflip]; exact pad_eq' n
 
+/-- the pad written as `(16 - r) % 16` (or `& 15`) -/
+theorem pad_eq3 (n : Nat) : Py.band (16 - Py.band ((n : Int) + 2) 15) 15 = ((v3Pad n : Nat) : Int) := by
+  rw [band_15, band_15]; unfold v3Pad; split <;> omega
+
 theorem v3Pad_lt (n : Nat) : v3Pad n < 16 := by unfold v3Pad; split <;> omega
 
 instance {ε α} [DecidableEq ε] [DecidableEq α] : DecidableEq (Except ε α) := fun a b =>
@@ -182,7 +186,7 @@ theorem encodeEncryptedRequest_eq (key : Option Bytes) (packetId : Int) (data ra
      | none => rfl
      | some k =>
        simp only [Option.isNone_some, Bool.false_eq_true, if_false, Option.getD_some]
-       simp only [pad_eq, pad_eq', pad_eq'']
+       simp only [pad_eq, pad_eq', pad_eq'', pad_eq3]
        rw [padType_fin _ (v3Pad_lt _), ok_bind, buildHeader_eq]
        unfold buildHeaderI overflow
        have e : ((data.length : Int) + ((v3Pad data.length : Nat) : Int) + 32) = ((data.length + v3Pad data.length + 32 : Nat) : Int) := by
